@@ -68,6 +68,10 @@ func exec(op string) vlib.Res {
 		if f[1] == "serve" {
 			return execED(kv(f[2:]))
 		}
+	case "mz":
+		if f[1] == "run" {
+			return execMZ(kv(f[2:]))
+		}
 	case "hs":
 		return execHS(f)
 	case "rx":
